@@ -615,6 +615,14 @@ class FnEmit:
             w('__CPROVER_assert(%s, "%s");' % (args[0], msg))
             if ins.op == 'invoke': w(s.edge(s.curblk, ins.normal))
             return
+        if name == '@__assert_fail':
+            a = ins.args[0]; msg = 'assert'
+            while a.kind == 'cexpr': a = a.ops[0]
+            if a.kind == 'global' and a.name in cx.m.globals and cx.m.globals[a.name].init is not None and cx.m.globals[a.name].init.kind == 'str':
+                raw = cx.m.globals[a.name].init.raw[2:-1]
+                msg = re.sub(r'\\[0-9A-Fa-f]{2}', '', raw).replace('"', "'")
+            w('__CPROVER_assert(0, "library assertion failed: %s"); __CPROVER_assume(0);' % msg[:150])
+            return
         if ins.callee.kind == 'asm':
             e = 'ir2c_spin_hint()'
         elif name:
@@ -652,7 +660,7 @@ MODELS = {'m_memcmp', 'm_free', 'm_malloc', 'm_posix_memalign', 'm_abort', 'm_st
           '__cxa_allocate_exception', '__cxa_throw', '__cxa_begin_catch', '__cxa_end_catch', '__cxa_free_exception', '__cxa_rethrow',
           '__cxa_guard_acquire', '__cxa_guard_release', '__cxa_guard_abort', '__cxa_atexit', '__cxa_thread_atexit', '_ZSt9terminatev', '__clang_call_terminate',
           '__cxa_pure_virtual', '_ZSt17__throw_bad_allocv', '_ZSt20__throw_length_errorPKc', '_ZSt28__throw_bad_array_new_lengthv',
-          '_ZNSt8ios_base4InitC1Ev', '_ZNSt8ios_base4InitD1Ev', '__CPROVER_assume', '__CPROVER_assert', '__CPROVER_atomic_begin', '__CPROVER_atomic_end', '_ZSt19__throw_logic_errorPKc', '_ZSt24__throw_out_of_range_fmtPKcz'}
+          '_ZNSt8ios_base4InitC1Ev', '_ZNSt8ios_base4InitD1Ev', '__CPROVER_assume', '__CPROVER_assert', '__CPROVER_atomic_begin', '__CPROVER_atomic_end', '_ZSt19__throw_logic_errorPKc', '_ZSt24__throw_out_of_range_fmtPKcz', '__assert_fail', 'pthread_self'}
 
 PRELUDE = r'''
 #include <stdint.h>
@@ -684,7 +692,12 @@ static u1 ir2c_exc_pending; static ptr ir2c_exc_obj; static uint32_t ir2c_exc_ty
 #define IR2C_ZI = {0}
 #endif
 static inline void ir2c_fence(void) {}
+#ifdef IR2C_SPIN_CUT
+/* a spinning thread only re-reads; executions in which it spins are equivalent to ones where it arrives later */
+static inline void ir2c_spin_hint(void) { __CPROVER_assume(0); }
+#else
 static inline void ir2c_spin_hint(void) {}
+#endif
 static inline double bits2double(uint64_t b) { double d; memcpy(&d, &b, 8); return d; }
 '''
 
@@ -763,6 +776,12 @@ static void __cxa_guard_release(ptr g) { *g = 1; }
 static void __cxa_guard_abort(ptr g) { }
 static uint32_t __cxa_atexit(ptr f, ptr a, ptr d) { return 0; }
 static uint32_t __cxa_thread_atexit(ptr f, ptr a, ptr d) { return 0; }
+#ifdef __CPROVER__
+extern unsigned long __CPROVER_thread_id;
+static uint64_t pthread_self(void) { return (uint64_t)__CPROVER_thread_id + 1; }
+#else
+static uint64_t pthread_self(void) { return 1; }
+#endif
 static void _ZNSt8ios_base4InitC1Ev(ptr p) {}
 static void _ZNSt8ios_base4InitD1Ev(ptr p) {}
 '''
@@ -821,11 +840,12 @@ STUB_REGISTRY = {
  'qsbr_defer_forever': (r'unodb::qsbr_per_thread::on_next_epoch_deallocate\(', lambda a: '{ ir2c_deferred_count++; return; }'),
  'qsbr_free_now': (r'unodb::qsbr_per_thread::on_next_epoch_deallocate\(', lambda a: '{ m_free(%s); return; }' % a[1]),
  'enc_no_growth': (r'^unodb::detail::ensure_capacity\(', lambda a: '{ __CPROVER_assert(0, "CUT: key_encoder buffer growth is unreachable in this harness"); __CPROVER_assume(0); }'),
+ 'lib_abort': (r'^unodb::detail::(cannot_happen|crash|msg_stacktrace_abort|assert_failure)\(', lambda a: '{ __CPROVER_assert(0, "unodb cannot_happen/crash/assert_failure reached"); __CPROVER_assume(0); }'),
  'tag_ptr': (r'unodb::detail::basic_node_ptr<.*>::tag_ptr\(', lambda a: '{ __CPROVER_assert((IR2C_PTROFF(%s) & 7) == 0, "node pointer 8-aligned before tagging"); return (uint64_t)(uintptr_t)(%s + %s); }' % (a[0], a[0], a[1])),
  'node_type': (r'unodb::detail::basic_node_ptr<.*>::type\(\) const', lambda a: '{ uint64_t x = *(uint64_t*)%s; return (uint8_t)IR2C_TAGOF(x); }' % a[0]),
  'node_ptr': (r'auto\* unodb::detail::basic_node_ptr<.*>::ptr<.*>\(\) const', lambda a: '{ uint64_t x = *(uint64_t*)%s; return (ptr)(uintptr_t)x - IR2C_TAGOF(x); }' % a[0]),
 }
-DEFAULT_STUBS = ['tag_ptr', 'node_type', 'node_ptr']
+DEFAULT_STUBS = ['tag_ptr', 'node_type', 'node_ptr', 'lib_abort']
 def demangle(names):
     import subprocess
     r = subprocess.run(['c++filt'], input='\n'.join(names), capture_output=True, text=True).stdout.split('\n')
